@@ -30,21 +30,33 @@ def static_audit(ctx):
         if None in objs:
             ctx.stage_broken('static audit: a source no longer compiles', '')
             return
-        r = subprocess.run(['nm', '-C'] + objs, capture_output=True, text=True)
+        # data objects by SECTION: .data / .bss / .tdata / .tbss are writable at run time; .rodata and .data.rel.ro (constant
+        # tables of pointers, read-only after relocation) are not
+        r = subprocess.run(['objdump', '-t', '-C'] + objs, capture_output=True, text=True)
         syms = []
         for l in r.stdout.splitlines():
-            m = re.match(r'^[0-9a-f]* ([bBdDsSgGcC]) (.*)$', l)
-            if m:
-                syms.append((m.group(1), m.group(2)))
-            if 'guard variable for' in l:
-                ctx.violation('function-local-static', 'function-local static object: ' + l.strip(), {'symbol': l.strip()})
+            m = re.match(r'^[0-9a-f]+\s+(.{7})\s+(\S+)\s+[0-9a-f]+\s+(.*)$', l)
+            if not m or 'O' not in m.group(1):
+                continue
+            sec, name = m.group(2), m.group(3).strip()
+            name = re.sub(r'^\.hidden\s+', '', name)
+            if 'guard variable for' in name:
+                ctx.violation('function-local-static', 'function-local static object: ' + name, {'symbol': name})
+                continue
+            if name.startswith('DW.ref.'):
+                continue        # compiler-generated reference to the exception personality routine
+            if re.match(r'\.(data|bss|tdata|tbss)(\.|$)', sec) and not sec.startswith('.data.rel.ro'):
+                syms.append((sec, name))
         bad = sorted(set(s for t, s in syms if s not in ALLOW_DATA))
         ctx.cov['writable_data_symbols'] = sorted(set(s for t, s in syms))
         for s in bad:
             ctx.violation('hidden-static-state:' + s, 'writable static data symbol `%s` (shared between compilations / VMs; allow-list: token_map, op_to_str, std::__ioinit)' % s, {'symbol': s})
         # the two allowed tables must be plain arrays of strings (a lookup in an array writes nothing; a lookup with
         # operator[] in a std::map / unordered_map inserts) and must never be assigned
+        writable = {re.sub(r'\[abi:cxx11\]', '', s_) for _, s_ in syms}
         for f, name in (('Compiler/src/scan.cpp', 'token_map'), ('VM/src/program.cpp', 'op_to_str')):
+            if name not in writable:
+                continue        # the table no longer exists as writable data (renamed, made constant): nothing to allow
             txt = open(os.path.join(vlib.REPO, f)).read()
             if not re.search(r'(?:^|\n)\s*(?:static\s+)?(?:const\s+)?std::string\s+(?:const\s+)?' + name + r'\s*\[\s*\d*\s*\]\s*=', txt) and \
                not re.search(r'std::array<\s*(?:const\s+)?std::string(?:_view)?\s*,[^>]*>\s*(?:const\s+)?' + name, txt) and \
